@@ -34,6 +34,8 @@ def main(args):
     for ob in r.obligations[n0:]:
         if ob.verdict == core.REFUTED:
             ob.replay = write_inference.replay(ob.name, ob.model)
+    pool.run_targets(r, "contracts.gate", ["_render_write_range_check"])
+    r.function("compiler.back_end.cpp.header_generator._render_write_range_check", "pyvc: the rendered guard rejects exactly the candidates outside the virtual field's inferred bounds (for every logical type and all bounds)")
     r.function("generated write methods of corpus virtual fields (Virt.shifted: add/subtract transform, Virt.alias_x: alias)",
                "llvc: generated header vs reference semantics (stores the inverse, reads back v, frame), all buffers and all candidates of the C++ value type")
     r.function("compiler.front_end.write_inference._invert_expression", "pyvc: loop-invariant step lemma on the real loop body + whole function to depth 3")
